@@ -133,6 +133,15 @@ fn check_head(c: &mut Ctx, b: &[u8], v: i128) {
             _ => fail(rep, "char", b, format!("value {} -> {:?}, expected {:?}", v, r.as_ref().map_err(|e| e.to_string()), exp)),
         }
     }
+    // the `Decode` impls of the primitive integer types (not only the accessors of the same name)
+    dec!(rep, b, v, u8, u8::try_from(v).ok());
+    dec!(rep, b, v, u16, u16::try_from(v).ok());
+    dec!(rep, b, v, u32, u32::try_from(v).ok());
+    dec!(rep, b, v, u64, u64::try_from(v).ok());
+    dec!(rep, b, v, i8, i8::try_from(v).ok());
+    dec!(rep, b, v, i16, i16::try_from(v).ok());
+    dec!(rep, b, v, i32, i32::try_from(v).ok());
+    dec!(rep, b, v, i64, i64::try_from(v).ok());
     dec!(rep, b, v, usize, usize::try_from(v).ok());
     dec!(rep, b, v, isize, isize::try_from(v).ok());
     dec!(rep, b, v, NonZeroU8, u8::try_from(v).ok().and_then(NonZeroU8::new));
